@@ -274,3 +274,63 @@ def selected_tags(live, subject):
             if all(a is not None for a in alts):
                 return [a for a in alts if a not in neg]
     return []
+
+
+# ---------------------------------------------------------------------------------- multisets (collections.Counter)
+_COUNTER = (("ext", "collections.Counter"),)
+
+
+def _as_list(xs):
+    if xs[0] == "comp" and xs[1] == "gen":
+        return ("comp", "list", xs[2], xs[3])
+    return xs
+
+
+def _counter_arg(t):
+    if t[0] == "call" and t[1] in _COUNTER and len(t[2]) == 1 and not t[3]:
+        return _as_list(t[2][0])
+    return None
+
+
+def norm_multiset(t):
+    """Counting idioms in the spelling with lists and sets:
+
+        Counter(xs).keys() / set(Counter(xs)) / set(Counter(xs).keys())     ->  set(xs)
+        any(c > 1 for c in Counter(xs).values())                            ->  len(xs) != len(set(xs))
+        len(set(xs)) < len(xs)  /  len(xs) > len(set(xs))                   ->  len(xs) != len(set(xs))   (a set is never larger)
+    """
+    if not isinstance(t, tuple) or not t:
+        return t
+    t = tuple(norm_multiset(c) if isinstance(c, tuple) else c for c in t)
+
+    def SET(x):
+        return ("call", ("builtin", "set"), (x,), ())
+
+    def LEN(x):
+        return ("call", ("builtin", "len"), (x,), ())
+
+    if t[0] == "call" and t[1][0] == "attr" and t[1][2] == "keys" and not t[2] and not t[3]:
+        xs = _counter_arg(t[1][1])
+        if xs is not None:
+            return SET(xs)
+    if t[0] == "call" and t[1] in (("builtin", "set"), ("builtin", "frozenset")) and len(t[2]) == 1 and not t[3]:
+        xs = _counter_arg(t[2][0])
+        if xs is not None:
+            return SET(xs)
+        if t[2][0][0] == "call" and t[2][0][1] == ("builtin", "set"):
+            return t[2][0]
+    if t[0] == "call" and t[1] == ("builtin", "any") and len(t[2]) == 1 and t[2][0][0] == "comp" and len(t[2][0][3]) == 1:
+        comp = t[2][0]
+        lid, it, conds = comp[3][0]
+        if not conds and it[0] == "call" and it[1][0] == "attr" and it[1][2] == "values" and not it[2]:
+            xs = _counter_arg(it[1][1])
+            el = ("elem", lid)
+            if xs is not None and comp[2] in (("cmp", "lt", ("const", 1), el), ("cmp", "le", ("const", 2), el), ("cmp", "ne", el, ("const", 1)),
+                                               ("cmp", "ne", ("const", 1), el)):
+                return ("cmp", "ne", LEN(xs), LEN(SET(xs)))
+    if t[0] == "cmp" and t[1] == "lt":
+        a, b = t[2], t[3]
+        if a[0] == "call" and a[1] == ("builtin", "len") and b[0] == "call" and b[1] == ("builtin", "len") \
+                and a[2][0] == SET(b[2][0]):
+            return ("cmp", "ne", b, a)
+    return t
